@@ -256,7 +256,7 @@ def mon_c10(sc, prof, pairs):
 
 def mon_c15(sc, prof, pairs):
     """element references: conversions are value-preserving (ids, clone events), replace swaps exactly one element"""
-    return _same(sc, prof, pairs, "C15", ("refs", "refreplace", "extend_refs"), fields=("status", "ret", "rev", "ev", "regs"))
+    return _same(sc, prof, pairs, "C15", ("refs", "refreplace", "extend_refs", "extend_refs_f"), fields=("status", "ret", "rev", "ev", "regs"))
 
 
 MONITORS = {"C05": mon_c05, "C06": mon_c06, "C07": mon_c07, "C10": mon_c10, "C15": mon_c15, "C12": mon_c12, "C09": mon_c09, "C04": mon_c04, "C01": mon_c01, "C02": mon_c02, "C03": mon_c03, "C08": mon_c08}
